@@ -422,7 +422,13 @@ def mutation_stream(R, rng, tier):
                 x.values()[0][2] = 11.0
             xi = x.inv()
             one = x * xi
-            ok = all(np.allclose(np.asarray(v, dtype=float), 1.0 if k == 0 else 0.0, atol=1e-9) for k, v in zip(one.keys(), one.values()))
+            # an array element of x may be singular: numpy then yields inf / nan for THAT element (no exception); such
+            # elements are outside the property ("whenever inv returns a value") and are masked out
+            arrs = {int(k): np.asarray(v, dtype=float) for k, v in zip(one.keys(), one.values())}
+            finite = np.ones(n, dtype=bool)
+            for v in arrs.values():
+                finite &= np.isfinite(np.broadcast_to(v, (n,)))
+            ok = all(np.allclose(np.broadcast_to(v, (n,))[finite], 1.0 if k == 0 else 0.0, atol=1e-9) for k, v in arrs.items())
         except ZeroDivisionError:
             continue
         except Exception as e:  # noqa
